@@ -155,7 +155,7 @@ func DataFileBytes(fs xfs.FS) (int64, error) {
 	return total, nil
 }
 
-func execGC(ctx context.Context, env *Env, st *State, cfg RunConfig, rep *kit.Report, where string) error {
+func execGC(ctx context.Context, env *Env, st *State, cfg RunConfig, rep *kit.Report, where string, concurrentWrites bool) error {
 	// metamorphic relation: every read before == after (both == model, checked by CheckAll)
 	if err := CheckAll(ctx, env.DB, st.M, where+" (before gc)", cfg.Limit); err != nil {
 		return err
@@ -165,13 +165,26 @@ func execGC(ctx context.Context, env *Env, st *State, cfg RunConfig, rep *kit.Re
 		return kit.Fail("fs-error", "listing files: %v", err)
 	}
 	if err := cfg.GC(ctx, env.DB); err != nil {
+		if concurrentWrites {
+			// a pass that runs while channels are created and deleted may report a failure
+			// (e.g. "resource closed" for a channel deleted under it): a reported failure has
+			// no effect to account for
+			rep.Class("gc-error-during-concurrent-ops")
+			rep.Add("gc-error:"+err.Error()[:min(70, len(err.Error()))], 1)
+			return nil
+		}
 		return kit.Fail("gc-error", "%s: garbage collection failed: %v", where, err)
 	}
 	after, err := DataFileBytes(env.FS)
+	if err != nil && concurrentWrites {
+		// a directory listed while a concurrent operation removes it: sizes are not compared
+		rep.Class("gc")
+		return nil
+	}
 	if err != nil {
 		return kit.Fail("fs-error", "listing files: %v", err)
 	}
-	if after > before && len(env.Writers) == 0 {
+	if after > before && len(env.Writers) == 0 && !concurrentWrites {
 		return kit.Fail("gc-grew-files", "%s: data files grew from %d to %d bytes across a GC pass", where, before, after)
 	}
 	if after < before {
